@@ -348,7 +348,9 @@ func (c *channel) reconnect(maxRetries float64) {
 		c.streamMut.Unlock()
 		c.setLastErr(err)
 		if retries >= maxRetries && maxRetries > 0 {
-			c.streamBroken.set()
+			// streamBroken is still set from before this attempt, unless another
+			// goroutine has re-established the stream since we released streamMut;
+			// setting it here would mark that healthy stream as broken.
 			return
 		}
 		delay := float64(backoffCfg.BaseDelay)
